@@ -54,7 +54,19 @@ func waitScenario(w *bufio.Writer, name string, timeoutMs uint64) {
 		switch name {
 		case "timeout": // nobody signals
 			machine.WaitTimeout(cond, timeoutMs)
-		case "signal", "broadcast": // signalled after 5 ms, long before the timeout
+		case "signal", "broadcast", "broadcast-after-many-timeouts": // signalled after 5 ms, long before the timeout
+			if name == "broadcast-after-many-timeouts" {
+				// first: 300 waits on another condition variable that nobody signals (each leaves its helper behind)
+				var mu2 sync.Mutex
+				cond2 := sync.NewCond(&mu2)
+				mu2.Lock()
+				for i := 0; i < 300; i++ {
+					machine.WaitTimeout(cond2, 1)
+				}
+				mu2.Unlock()
+				defer func() { mu2.Lock(); cond2.Broadcast(); mu2.Unlock() }()
+				start = time.Now()
+			}
 			go func() {
 				time.Sleep(5 * time.Millisecond)
 				mu.Lock()
@@ -129,7 +141,7 @@ func waitScenario(w *bufio.Writer, name string, timeoutMs uint64) {
 	select {
 	case r := <-result:
 		fmt.Fprintf(w, "W %s %d -> %s\n", name, timeoutMs, r)
-	case <-time.After(3 * time.Second):
+	case <-time.After(6 * time.Second):
 		fmt.Fprintf(w, "W %s %d -> HUNG\n", name, timeoutMs)
 	}
 }
@@ -234,6 +246,7 @@ func main() {
 	for _, t := range []uint64{0, 5, 20} {
 		waitScenario(w, "stale-helper", t)
 	}
+	waitScenario(w, "broadcast-after-many-timeouts", 1500)
 	for i := 0; i < 40; i++ {
 		waitScenario(w, "contending-signal", 1500)
 		waitScenario(w, "contending-broadcast", 1500)
